@@ -1564,6 +1564,18 @@ def tier_c(run, thorough):
                 for (_, ca), (_, cb) in zip(_bids_cases(families=[fa], exts=['nii.gz']), _bids_cases(families=[fb], exts=['nii.gz'])):
                     bd.check(orc_bids_sequence, dict(ents=ca['ents'], other=cb['ents'], sibs=BIDS_SIBS[:2]), 'call-sequence',
                              function='BidsLayout._replace')
+            # ... and with another file that differs from the first in exactly ONE entity (other value, or entity absent)
+            for k, (_, ca) in enumerate(_bids_cases(families=['mixed'], exts=['nii.gz'])):
+                ents = ca['ents']
+                for e in BIDS_OPTIONAL:
+                    if ents.get(e) is None or (not thorough and (k + len(e)) % 3):
+                        continue
+                    changed = dict(ents, **{e: 'derivB' if e == 'derivative' else ('7' if e == 'run' else 'other' + e)})
+                    bd.check(orc_bids_sequence, dict(ents=ents, other=changed, sibs=BIDS_SIBS[:2]),
+                             'call-sequence,one-entity-differs', function='BidsLayout.find_meta_for')
+                    if e != 'derivative':
+                        bd.check(orc_bids_sequence, dict(ents=ents, other=dict(ents, **{e: None}), sibs=BIDS_SIBS[:2]),
+                                 'call-sequence,one-entity-absent', function='BidsLayout.find_meta_for')
         bd.done()
         bds.append(bd)
 
